@@ -142,9 +142,11 @@ def main():
     except ValueError: seed = 0
     t0 = time.time()
     sys.path.insert(0, ROOT)
-    facts_dir, key, fresh = ensure_facts()
+    if os.environ.get("VERIF_FACTS_DIR_OVERRIDE"):   # development aid (tools/seedmatrix.py): analyse pre-extracted facts of a scratch variant
+        facts_dir, key, fresh = os.environ["VERIF_FACTS_DIR_OVERRIDE"], "override:" + os.path.basename(os.environ["VERIF_FACTS_DIR_OVERRIDE"]), False
+    else:
+        facts_dir, key, fresh = ensure_facts()
     os.environ["FACTS"] = facts_dir
-    os.environ["VERIF_ANALYSIS_KEY"] = sha(analysis_files())[:16]
     os.environ["VERIF_TIER_EFFECTIVE"] = tier
     F, results = run_rules(cid, facts_dir, tier)
     extra = {}
